@@ -163,6 +163,19 @@ def o_roundtrip(case):
     towers = [TowerConfig(name=n, lat=float(rng.uniform(-60, 60)), lon=float(rng.uniform(-180, 180)), z_m=float(rng.uniform(2, 40))) for n in names]
     cfg = BLDFMConfig(domain=DomainConfig(nx=nx, ny=ny, xmax=37.5, ymax=10.0, nz=3), towers=towers,
                       met=MetConfig(ustar=None if z0f else 0.3, z0=0.07 if z0f else None))
+    if case.get("f32_prelude"):
+        # an earlier export in the same process whose fields are ALL float32 (single-precision dispersion runs): nothing of it may
+        # decide how the next set is stored
+        pre = {n: [dict(r, conc=np.ones(r["conc"].shape, dtype=np.float32), flx=np.full(r["flx"].shape, 0.5, dtype=np.float32)) for r in ser]
+               for n, ser in results.items()}
+        fd0, path0 = tempfile.mkstemp(suffix=".nc", dir=os.getcwd())
+        os.close(fd0)
+        try:
+            save_footprints_to_netcdf(pre, cfg, path0)
+        except Exception:  # noqa: BLE001
+            pass
+        finally:
+            os.remove(path0)
     fd, path = tempfile.mkstemp(suffix=".nc", dir=os.getcwd())
     os.close(fd)
     try:
@@ -232,7 +245,7 @@ def run(rng, tier, deep):
                     continue
                 run_oracle(st, o_roundtrip, dict(towers=nt, steps=ns, three_d=three_d, seed=int(rng.integers(1 << 30)),
                                                  str_ts=bool(rng.random() < 0.5), z0_forcing=bool(rng.random() < 0.4),
-                                                 mixed_dtype=bool(rng.random() < 0.5), dup_ts=bool(rng.random() < 0.35), np_params=bool(rng.random() < 0.4),
+                                                 mixed_dtype=bool(rng.random() < 0.5), dup_ts=bool(rng.random() < 0.35), np_params=bool(rng.random() < 0.4), f32_prelude=bool(rng.random() < 0.4),
                                                  z_order=[int(v) for v in rng.permutation(3)] if (three_d and rng.random() < 0.6) else None))
     return finish(st, "result sets over towers 1..4 x steps 1..4 x 2-D/3-D, values from adversarial float64 bit patterns (+-0, denormals, +-1e308, the default "
                   "netCDF fill value, negatives), string and integer timestamps (incl. a repeated label), ustar or z0 forcing, per-step met values given as Python floats / ints / numpy scalars / 0-d arrays, result sets mixing float32 and float64 entries, 3-D outputs whose levels are not listed bottom-up; correspondence: which (tower, step) every dataset cell, label "
